@@ -254,6 +254,11 @@ class LimitedRun:
                 new = policy(self, lz.L().lzma_memusage(C.byref(self.c.strm))) if policy else None
                 if new is None or nerr > 40:      # (a decoder that never gets past the limit must not loop forever)
                     break
+                if new == "again":                # call lzma_code() again without touching the limit
+                    continue
+                if isinstance(new, tuple):        # ("try", value): set it and call again whether accepted or not
+                    self.set_limit(new[1])
+                    continue
                 if self.set_limit(new) != lz.OK:
                     break
                 continue
